@@ -11,6 +11,7 @@ answered, the addon's `done()` runs) and judged.
 """
 from __future__ import annotations
 
+from mitmproxy import flow as mflow
 from mitmproxy import http
 
 from vmc.drivers import mbfs
@@ -52,6 +53,16 @@ def build_flows(plan):
         f.comment = "edited by user"
         return f
 
+    def RO(name, err=False):
+        # a flow that never got an answer: request only (or request + error), e.g. saved while the server was down
+        f = H(name)
+        f.response = None
+        if err:
+            f.error = mflow.Error("connection refused")
+        return f
+
+    if plan == "request-only":
+        return [H("AAAA"), RO("REQO"), RO("REQE", err=True), H("CCCC")], None, fl
     if plan == "abc":
         return [H("AAAA"), H("BBBB"), H("CCCC")], None, fl
     if plan == "mixed":
@@ -65,7 +76,7 @@ def build_flows(plan):
     raise ValueError(plan)
 
 
-PLANS = ["abc", "mixed", "backup", "two-calls", "two-calls-mixed"]
+PLANS = ["abc", "mixed", "backup", "two-calls", "two-calls-mixed", "request-only"]
 SUSPEND = ["none", "request", "response", "error"]
 POLICIES = ["none", "respond", "kill", "icpt_request", "icpt_response", "icpt_error"]
 
@@ -152,6 +163,7 @@ class Exec:
             for f in batch:
                 if name_of[id(f)] in ok:
                     pre[name_of[id(f)]] = f.get_state()
+                    st.setdefault("pre_resp", {})[name_of[id(f)]] = f.response is not None
             rw.start_replay(batch)
             Q.extend(ok)
             if st["opt"] == 1:
@@ -340,7 +352,7 @@ class Exec:
         # stop restores the pre-replay state
         for n, same, diff in stop_checks:
             had_backup = n == "BKUP"
-            t.judge("stop_restores_pre_replay_state", same, dict(feats0, had_backup=had_backup), case, "state after stop == state before replay.client", diff)
+            t.judge("stop_restores_pre_replay_state", same, dict(feats0, had_backup=had_backup, had_response=st.get("pre_resp", {}).get(n)), case, "state after stop == state before replay.client", diff)
         # clean-up
         tasks = rw.loop.pending_tasks()
         t.judge("no_tasks_left", not tasks, feats0, case, "no task left after ClientPlayback.done()", [repr(x)[:100] for x in tasks][:3])
